@@ -1,6 +1,8 @@
 (* C10 — rounded operations never return more bits than the working precision. Pure Z. *)
 From Coq Require Import ZArith.
-From MP Require Import Algo.Base Algo.Libmpf Spec.Mpf Proofs.Normalize Proofs.Ops.
+From Coq Require Import Reals.
+From Flocq Require Import Core.
+From MP Require Import Algo.Base Algo.Libmpf Spec.Mpf Spec.Round Proofs.Normalize Proofs.Ops Proofs.Format Proofs.Fin.
 Open Scope Z_scope.
 
 Theorem C10_normalize_bc_le : forall sign man exp bc prec r,
@@ -25,6 +27,21 @@ Theorem C10_mul_bc_le : forall s t prec r, fincanon s -> fincanon t -> 0 < prec 
   mbc (python_mpf_mul s t prec r) <= prec.
 Proof. exact python_mpf_mul_bc_le. Qed.
 Print Assumptions C10_mul_bc_le.
+
+(* any canonical value that equals a p-bit rounding carries at most p bits: the bridge from the rounding theorems *)
+Theorem C10_rounded_bc_le : forall y r p x, fincanon y -> 0 < p -> rv y = RND r p x -> mbc y <= p.
+Proof. exact rounded_bc_le. Qed.
+Print Assumptions C10_rounded_bc_le.
+
+Theorem C10_add_bc_le : forall s t prec r, fincanon s -> fincanon t -> 0 < prec -> mbc (mpf_add s t prec r) <= prec.
+Proof. exact mpf_add_bc_le. Qed.
+Theorem C10_sub_bc_le : forall s t prec r, fincanon s -> fincanon t -> 0 < prec -> mbc (mpf_sub s t prec r) <= prec.
+Proof. exact mpf_sub_bc_le. Qed.
+Theorem C10_div_bc_le : forall s t prec r y, fincanon s -> regular t -> 0 < prec -> mpf_div s t prec r = Ok y -> mbc y <= prec.
+Proof. exact mpf_div_bc_le. Qed.
+Theorem C10_sqrt_bc_le : forall s prec r y, regular s -> msign s = 0 -> 0 < prec -> mpf_sqrt s prec r = Ok y -> mbc y <= prec.
+Proof. exact mpf_sqrt_bc_le. Qed.
+Print Assumptions C10_sqrt_bc_le.
 
 (* non-vacuity: an 8-bit input really is cut down *)
 Example C10_witness : mbc (normalize 0 201 0 8 3 RF) = 2.
